@@ -121,3 +121,117 @@ pub fn c06(tier: &str) -> i32 {
         "BFS over operation sequences (insert/delete/update/rolled-back and committed session writes/VACUUM/ANALYZE/reopen/CREATE UNIQUE INDEX), deduplicated on the reference model state; in EVERY reached state up to 38 query classes are each run in 3-7 semantically identical spellings (bare indexed predicate, `k + 0` wrapped, operands swapped, redundant conjunct, IN vs OR vs BETWEEN, JOIN ON vs comma join in both table orders) and every spelling must return exactly the rows the reference evaluator computes from the model's committed contents; EXPLAIN of every spelling is recorded to count classes whose spellings really got different plans",
     )
 }
+
+// ------------------------------------------------------------------------------------------- C12
+
+fn cfg_grid(quick: bool) -> Vec<Cfg> {
+    let c = |page_size, cache, pool, min_keys, siblings| Cfg { page_size, cache, pool, min_keys, siblings };
+    if quick {
+        // every value of every dimension appears at least once, extremes are combined with each other
+        vec![
+            c(4096, 10000, 2, 3, 2), // the default every SQL-level test of the repository runs
+            c(4096, 16, 1, 3, 1),
+            c(4096, 32, 2, 4, 2),
+            c(4096, 64, 8, 8, 3),
+            c(8192, 16, 2, 8, 2),
+            c(8192, 64, 1, 3, 3),
+            c(16384, 32, 8, 4, 1),
+            c(65536, 16, 1, 4, 3),
+            c(65536, 32, 2, 3, 1),
+            c(65536, 10000, 8, 8, 2),
+        ]
+    } else {
+        let mut v = vec![c(4096, 10000, 2, 3, 2)];
+        for page_size in [4096usize, 8192, 65536] {
+            for cache in [16usize, 32, 64, 10000] {
+                for pool in [1usize, 8] {
+                    for min_keys in [3usize, 4, 8] {
+                        for siblings in [1usize, 2, 3] {
+                            let x = c(page_size, cache, pool, min_keys, siblings);
+                            if !v.contains(&x) {
+                                v.push(x);
+                            }
+                        }
+                    }
+                }
+            }
+        }
+        v
+    }
+}
+
+pub fn c12(tier: &str) -> i32 {
+    use crate::engines::cfg::CfgParams;
+    let quick = tier == "quick";
+    let findings = Findings::load();
+    let txt = |n: usize, ch: char| Val::Text(std::iter::repeat(ch).take(n).collect());
+    let d = TableDef::simple("d", &[("k", ColTy::Int), ("s", ColTy::Text)]);
+    let x = TableDef::simple("x", &[("k", ColTy::Int), ("v", ColTy::Int)]).with_unique(&["k"]);
+    let ins_d = |range: std::ops::RangeInclusive<i128>, n: usize| Stmt::Insert { table: "d".into(), rows: range.map(|k| vec![i(k), txt(n, (b'a' + (k % 26) as u8) as char)]).collect() };
+    let ins_x = |range: std::ops::RangeInclusive<i128>| Stmt::Insert { table: "x".into(), rows: range.map(|k| vec![i(k), i(k * 10)]).collect() };
+    let prefix = vec![
+        Op::Auto(Stmt::CreateTable(d)),
+        Op::Auto(Stmt::CreateTable(x)),
+        Op::Auto(ins_d(1..=40, 150)),
+        Op::Auto(ins_d(41..=80, 150)),
+        Op::Auto(ins_d(81..=120, 150)),
+        Op::Auto(ins_x(1..=60)),
+        Op::Auto(ins_x(61..=120)),
+    ];
+    let alpha = vec![
+        Op::Auto(ins_d(200..=239, 150)),
+        Op::Auto(ins_d(300..=300, 6000)),
+        Op::Auto(ins_d(301..=301, 20000)),
+        Op::Auto(del("d", 1)),
+        Op::Auto(del("d", 300)),
+        Op::Auto(Stmt::Delete { table: "d".into(), pred: None }),
+        Op::Auto(Stmt::Update { table: "d".into(), set: vec![("s".into(), txt(1, 'x'))], pred: Some(("k".into(), i(2))) }),
+        Op::Auto(Stmt::Update { table: "d".into(), set: vec![("s".into(), txt(5000, 'y'))], pred: Some(("k".into(), i(3))) }),
+        Op::Auto(ins_x(200..=249)),
+        Op::Auto(del("x", 10)),
+        Op::Auto(Stmt::Select { table: "x".into(), pred: Some(("k".into(), i(77))) }),
+        Op::Begin(1),
+        Op::In(1, ins_d(400..=419, 150)),
+        Op::In(1, del("d", 5)),
+        Op::Rollback(1),
+        Op::Commit(1),
+        Op::Flush,
+        Op::Vacuum,
+        Op::Reopen,
+    ];
+    let cfgs = cfg_grid(quick);
+    let p = CfgParams {
+        seq: SeqParams {
+            property: "C12".into(),
+            cfg: Cfg::default(),
+            prefix,
+            alphabet: alpha.clone(),
+            hazards: findings.ids_for("C12").into_iter().collect(),
+            audit_end: true,
+            reopen_end: false,
+            vacuum_end: false,
+            reopen_cfg: None,
+        },
+        cfgs: cfgs.clone(),
+        oom_allowed_below: 24,
+    };
+    let label = format!(
+        "bulk workload on d(k, s TEXT) [120 rows of 150 B in the seed state] and x(k UNIQUE, v) [120 rows] under {} configurations: {}",
+        cfgs.len(),
+        cfgs.iter().map(|c| format!("{}/{}/{}/{}/{}", c.page_size, c.cache, c.pool, c.min_keys, c.siblings)).collect::<Vec<_>>().join(" ")
+    );
+    let searches = vec![Search { label, engine: "cfg", params: serde_json::to_value(&p).unwrap(), alphabet_shown: alpha.iter().map(|o| o.show()).collect(), max_depth: if quick { 3 } else { 4 }, budget: if quick { 20_000 } else { 200_000 }, timeout_s: 300 }];
+    run_searches(
+        "C12",
+        tier,
+        "model_checking",
+        searches,
+        &[
+            "configuration grid as listed in the search label (page size / cache pages / pool / min keys / siblings); quick tier: 10 configurations in which every value of every dimension occurs and the extremes are combined, thorough tier: the full product 3 x 4 x 2 x 3 x 3",
+            "the workload's seed state (about 40 data pages at 4 KiB) exceeds the 16-, 32- and (with the bulk inserts) 64-page caches, so eviction, write-back and re-read happen in most configurations; at 64 KiB pages the same rows fit one page each",
+            "an explicit out-of-memory error is accepted only from caches below 24 pages (the documented range starts at 'a few dozen')",
+            "statement-level, single client; histories on which a listed known finding's hazard fires are judged only up to the hazard step",
+        ],
+        "BFS over operation sequences (bulk inserts of 40-50 rows, 6 kB and 20 kB rows, point and full deletes, shrinking and growing updates, session insert/delete with commit or rollback, flush, VACUUM, reopen), deduplicated on the reference model state; EVERY history is executed from scratch under EVERY configuration of the grid; under each configuration every result and the final contents must equal the reference model's and the digests of all returned results must be equal across configurations",
+    )
+}
